@@ -25,8 +25,8 @@ from .storesim import DagGen, ft_paths, ft_subtree, ft_valid, replay_dag
 PROPERTY = "C41"
 LEVEL = "exploration"
 RULE = (
-    "one case = one seeded history (5-12 revisions, merges, exec bits, symlinks, properties) built in 3 native worlds "
-    "(2a, pack-0.92, rich-root-pack; seeded pack()/re-open points), 3-6 sibling worlds that change exactly one attested "
+    "one case = one seeded history (5-10 revisions, merges, exec bits, symlinks, properties) built in 3 native worlds "
+    "(2a, pack-0.92, rich-root-pack; seeded pack()/re-open points), 3-5 sibling worlds that change exactly one attested "
     "field of one revision, and 1-2 fetch copies; every pair of worlds is compared per (revision, testament class); "
     "non-trivial = at least one sibling pair with differing attested tuples AND one cross-format pair with equal tuples "
     "were compared; distinct = distinct event-log digests of such runs"
@@ -158,7 +158,7 @@ def perturb(rng, mh, specs, idx, field):
 
 def generate(rng, tier):
     g = DagGen(rng, ghosts=rng.choice([0.0, 0.1]))
-    specs = g.run(rng.randint(5, 12), merge_p=0.35)
+    specs = g.run(rng.randint(5, 10), merge_p=0.35)
     for s in specs:
         s["committer"] = rng.choice(COMMITTERS[:2] if rng.random() < 0.8 else COMMITTERS)
         if rng.random() < 0.5:
@@ -169,7 +169,7 @@ def generate(rng, tier):
             s["msg"] = s["msg"] + "\nsecond paragraph: ünïcode ☃\n  indented line"
     mh = replay_dag(specs)
     variants = []
-    fields = rng.sample(FIELDS, rng.randint(3, 6))
+    fields = rng.sample(FIELDS, rng.randint(3, 5))
     for field in fields:
         for _ in range(4):
             idx = rng.randrange(len(specs))
